@@ -41,6 +41,8 @@ class Step:
         self.raised: Optional[str] = None
         self.consumed: Any = None
         self.progress: Optional[bool] = None  # the path condition entails that pos grew by at least one character
+        self.in_range: Optional[bool] = None  # the path condition entails pos <= len(query) after the step
+        self.beyond_end: Optional[bool] = None  # the path condition entails pos > len(query) after the step
         self.filter_depth_delta: Any = None
         self.stack_ops: List[str] = []
         self.skipped_blank = False
@@ -51,7 +53,7 @@ class Step:
         return {k: v for k, v in self.__dict__.items() if v not in (None, [], {}, "", False)}
 
 
-def lexer_iteration(model: Model, state: str, filter_depth: int = 0, in_function: Any = False, bracket_top: Optional[str] = None) -> List[Step]:
+def lexer_iteration(model: Model, state: str, filter_depth: int = 0, in_function: Any = False, bracket_top: Optional[str] = None, beyond_end: bool = False) -> List[Step]:
     lexmod = model.module("lex")
     lci = model.cls("lex.Lexer")
     if state not in lexmod.functions and state not in lexmod.assigns:
@@ -62,7 +64,12 @@ def lexer_iteration(model: Model, state: str, filter_depth: int = 0, in_function
         n = Lin.var(q.len_var)
         lx = it.instantiate(lci, [q], {}, None)
         p = it.new_int("pos", 0)
-        it.ctx.assume_le0(p.lin - n)
+        if beyond_end:
+            # the pointer has been moved past the end of the text by an earlier step (pos == len(query) + 1)
+            it.ctx.assume_le0(p.lin - n - Lin.k(1))
+            it.ctx.assume_le0(n + Lin.k(1) - p.lin)
+        else:
+            it.ctx.assume_le0(p.lin - n)
         lx.attrs["pos"] = p
         lx.attrs["start"] = p
         lx.attrs["filter_depth"] = Const(filter_depth)
@@ -182,6 +189,8 @@ def lexer_iteration(model: Model, state: str, filter_depth: int = 0, in_function
             d = newpos.lin - p.lin
             s.consumed = d.const if d.is_const() else d.show(ctx.names)
             s.progress = bool(ctx.oct.entails_le0(p.lin - newpos.lin + Lin.k(1)))
+            s.in_range = bool(ctx.oct.entails_le0(newpos.lin - Lin.var(q.len_var)))
+            s.beyond_end = bool(ctx.oct.entails_le0(Lin.var(q.len_var) + Lin.k(1) - newpos.lin))
         elif isinstance(newpos, Const):
             s.consumed = f"={newpos.value}"
         fd = lx.attrs.get("filter_depth")
@@ -739,3 +748,45 @@ def check_progress(model: Model, report: Any, rule: str) -> None:
         report.ok(rule, "lex.Lexer.run", "progress:no-zero-progress-cycle", detail={"states": len(states), "steps": n_steps, "zero_progress_steps": sum(len(v) for v in zero.values()), "chains_followed": chains, "longest_chain": longest})
     for st in states:
         report.touched(f"lex.{st}")
+
+
+def check_pointer_in_range(model: Model, report: Any, rule: str) -> None:
+    """Offsets carried by tokens lie inside the query because the lexer's pointer never passes its end: every step
+    that hands over to another state leaves `pos <= len(query)` (the precondition under which every state is
+    analysed).  A step that can leave the pointer beyond the end is followed into the next state *from there*; if
+    that state can then emit an error token or raise (both carry `start` / `pos`), the offset reported lies
+    outside the query text."""
+    states = lexer_state_names(model)
+    n = 0
+    bad = 0
+    for st in states:
+        for cfg, kw in PROGRESS_CONFIGS:
+            try:
+                steps = lexer_iteration(model, st, **kw)
+            except Unsupported as err:
+                report.undecided(rule, f"lex.{st}", f"pointer-in-range:{cfg}: {err}")
+                return
+            for s in steps:
+                if s.skipped_blank:
+                    continue  # the same code runs from the position after the blanks (covered by the generic position)
+                if s.raised or s.error or s.next_state is None or not s.beyond_end:
+                    # (pos <= len(query) itself is a three-variable fact, pos + matched length <= len, which the
+                    # octagon cannot hold; only steps that provably end beyond the text are followed)
+                    n += 1
+                    continue
+                if s.next_state not in states:
+                    continue
+                try:
+                    nxt = lexer_iteration(model, s.next_state, beyond_end=True, **kw)
+                except Unsupported as err:
+                    report.undecided(rule, f"lex.{st}", f"pointer-in-range:{cfg}: next state from beyond the end: {err}")
+                    return
+                errs = [t for t in nxt if t.error or t.raised]
+                if errs:
+                    bad += 1
+                    what = errs[0].error or errs[0].raised
+                    report.fail(rule, f"lex.{st}", f"pointer-beyond-end:{st}->{s.next_state}", f"a path through {st} ({cfg}) leaves the pointer beyond the end of the query (moved by {s.consumed} at the end of input) and hands over to {s.next_state}, which then reports {what!r} at that pointer: the offset of the error lies outside the query text (e.g. a query ending right after an opening quote)")
+                else:
+                    n += 1
+    if not bad:
+        report.ok(rule, "lex.Lexer", "pointer-in-range: no step hands over with the pointer beyond the end of the query to a state that reports an error there", detail={"steps": n})
